@@ -278,6 +278,7 @@ def assemble(sc: Sidecar, mutate=None, canary: Optional[str] = None, plain_only:
     drops, functions = [], []
     splice_count = clause_count = 0
     plain_parts = []
+    native_over = {}    # index into plain_parts -> text for the NATIVE rendering (std derives kept)
     all_binds = {}
     selfcheck_ok = True
 
@@ -303,11 +304,18 @@ def assemble(sc: Sidecar, mutate=None, canary: Optional[str] = None, plain_only:
         first_line = src.line_of(start)
         # ---- rules (edits on the original item text)
         edits = []
+        plain_type_edits = None
         for r in ex.rules:
             if r == 'R3':
                 continue
             if r not in R.RULES:
                 raise SidecarError('unknown rule %s' % r)
+            if r == 'R6' and parse_path(ex.path)[-1][0] in ('struct', 'enum'):
+                # the NATIVE rendering keeps the std-derivable traits (==, clone(), default() must still compile there)
+                plain_type_edits = [e for rr in ex.rules if rr in R.RULES and rr != 'R6' for e in R.RULES[rr](text)] + R.r6_attrs_docs(text, keep_std_derives=True)
+                if plain_only:
+                    edits += R.r6_attrs_docs(text, keep_std_derives=True)
+                    continue
             edits += R.RULES[r](text)
         is_fn = parse_path(ex.path)[-1][0] == 'fn'
         if ex.r3:
@@ -348,6 +356,8 @@ def assemble(sc: Sidecar, mutate=None, canary: Optional[str] = None, plain_only:
         functions.append({'item': ex.path, 'file': ex.file, 'lines': [first_line, src.line_of(item.end)],
                           'sha256': hashlib.sha256(text.encode()).hexdigest()})
         plain_parts.append(rewritten + '\n\n')
+        if plain_type_edits is not None and mutate is None and ex.vis is None and not ex.dropbounds and not plain_only:
+            native_over[len(plain_parts) - 1] = R.apply_edits(text, plain_type_edits)[0] + '\n\n'
         # ---- binds
         binds = {}
         for name, rx, default in ex.binds:
@@ -500,7 +510,7 @@ def assemble(sc: Sidecar, mutate=None, canary: Optional[str] = None, plain_only:
     text, origins = b.finish()
     sources = {f: hashlib.sha256(s.text.encode()).hexdigest() for f, s in cache.items()}
     asm = Assembled(text, origins, sources, drops, functions, splice_count, clause_count,
-                    plain=''.join(plain_parts), binds=all_binds)
+                    plain=''.join(native_over.get(i, t) for i, t in enumerate(plain_parts)), binds=all_binds)
     # ---- self-check (3.3): removing every line that came from a splice/raw/frame and undoing nothing
     # else must give exactly the rule-rewritten token stream of the extracted items
     kept_lines = []
